@@ -136,6 +136,19 @@ class PyExec:
             o.append(f"wakeup {sim.us(nw) - self.w.now}")
         elif op == 'd21.dump':
             o.append(self.d21_dump(int(t[1])))
+        elif op == 'listener':
+            import can
+            got = []
+
+            class E:
+                def notify(self, cid, data, ts):
+                    got.append(cid)
+            L = sys.modules['j1939.electronic_control_unit'].MessageListener(E())
+            if t[1] != '0':
+                L.stop()
+            L.on_message_received(can.Message(arbitration_id=0x18FECA21 if t[4] != '0' else 0x123, is_extended_id=(t[4] != '0'),
+                                              is_error_frame=(t[2] != '0'), is_remote_frame=(t[3] != '0'), data=[] if t[3] != '0' else [1, 2]))
+            o.append("forward" if got else "drop")
         elif op == 'ca.new':
             self.ca_new(int(t[1]), None if t[2] == 'n' else int(t[2]), t[3] != '0')
         elif op.startswith('ca.'):
